@@ -66,3 +66,10 @@ Example C17_example_update :
 Proof. vm_compute. reflexivity. Qed.
 Example C17_example_reject : pars_update [("n", mkSV (NVNum 5) Orig)] [("n", NVNum 6); ("m", NVNum 1)] false = RErr EKeyNotFound.
 Proof. vm_compute. reflexivity. Qed.
+
+(* "values that cannot stand in for a time parameter are rejected" is refuted for the KIND of a bare time parameter: a duration replaces a rate (and
+   vice versa) without complaint, whereas the same mismatch inside a distribution is refused (C17_duration_guard) -- listed finding wrong-kind-of-timepar-accepted *)
+Theorem C17_timepar_kind_mismatch_accepted_refuted : forall od nd ob nb ov nv', od <> nd ->
+  update_timepar (mkSV (NVTimePar od ob ov) Orig) (NVTimePar nd nb nv') = OSet (mkSV (NVTimePar nd nb nv') Orig).
+Proof. exact timepar_kind_mismatch_accepted. Qed.
+Print Assumptions C17_timepar_kind_mismatch_accepted_refuted.
